@@ -451,7 +451,9 @@ impl Router {
             Event::Disconnect => self.handle_disconnection(id, None),
             Event::Ready => self.scheduler.reschedule(id, ScheduleReason::Ready),
             Event::Shadow(request) => {
-                retrieve_shadow(&mut self.datalog, &mut self.obufs[id], request)
+                if let Some(outgoing) = self.obufs.get_mut(id) {
+                    retrieve_shadow(&mut self.datalog, outgoing, request)
+                }
             }
             Event::SendAlerts => {
                 self.send_alerts();
